@@ -18,6 +18,7 @@ import Purr.Lemmas.ShapeL
 import Purr.Lemmas.AutomatonL
 import Purr.Lemmas.GrammarEqL
 import Purr.Lemmas.ReaderL
+import Purr.Lemmas.BnfL
 namespace Purr.C05
 open Purr
 
@@ -86,6 +87,50 @@ theorem end_of_line_is_viable_incomplete (s : Str) (h : (read s).2 = .fail []) :
   have hcl : Spec.classify s = .endOfLine := by rw [← heq]; rfl
   obtain ⟨_, z, hz⟩ := Spec.endOfLine_is_viable_incomplete s hcl
   exact ⟨by rw [h]; simp, z, (read_ok_iff _).mpr hz⟩
+
+/-- END OF LINE EXACTLY WHEN VIABLE BUT INCOMPLETE: the reader reports `EndOfLine` if and only if the input is refused
+    and can be extended to an accepted string -/
+theorem end_of_line_iff (s : Str) :
+    (read s).2 = .fail [] ↔ ((read s).2 ≠ .ok ∧ ∃ z, (read (s ++ z)).2 = .ok) := by
+  constructor
+  · exact end_of_line_is_viable_incomplete s
+  · rintro ⟨hno, z, hz⟩
+    cases hv : (read s).2 with
+    | ok => exact absurd hv hno
+    | panic p => exact absurd hv (run_no_panic _ _ _ p)
+    | fail a =>
+      cases a with
+      | nil => rfl
+      | cons c r =>
+        exfalso
+        obtain ⟨_, _, hall⟩ := character_is_first_offending s (c :: r) c r hv rfl
+        obtain ⟨p, hp⟩ := fail_is_suffix s (c :: r) hv
+        have hlen : s.length - (c :: r).length = p.length := by rw [hp]; simp
+        have htake : s.take (p.length + 1) = p ++ [c] := by
+          rw [hp]
+          have : p ++ c :: r = (p ++ [c]) ++ r := by simp
+          rw [this, List.take_left' (by simp)]
+        rw [hlen, htake] at hall
+        apply hall (r ++ z)
+        have : p ++ [c] ++ (r ++ z) = s ++ z := by rw [hp]; simp
+        rw [this]; exact hz
+
+/-! the same clauses with "valid SMILES" read as "has a derivation in the documented productions" (C04
+    `accepts_iff_productions`, Purr/Spec/Bnf.lean) -/
+
+theorem character_is_first_offending_productions (s a : Str) (c : Char) (r : Str) (h : (read s).2 = .fail a) (ha : a = c :: r) :
+    s.length - a.length < s.length ∧
+    (∃ z, Spec.Bnf.Sentence (s.take (s.length - a.length) ++ z)) ∧
+    (∀ z, ¬ Spec.Bnf.Sentence (s.take (s.length - a.length + 1) ++ z)) := by
+  obtain ⟨h1, ⟨z, hz⟩, h3⟩ := character_is_first_offending s a c r h ha
+  exact ⟨h1, ⟨z, accepted_sentence hz⟩, fun z hs => h3 z (sentence_accepted hs)⟩
+
+theorem end_of_line_iff_productions (s : Str) :
+    (read s).2 = .fail [] ↔ (¬ Spec.Bnf.Sentence s ∧ ∃ z, Spec.Bnf.Sentence (s ++ z)) := by
+  rw [end_of_line_iff]
+  constructor
+  · rintro ⟨h1, z, hz⟩; exact ⟨fun hs => h1 (sentence_accepted hs), z, accepted_sentence hz⟩
+  · rintro ⟨h1, z, hz⟩; exact ⟨fun hok => h1 (accepted_sentence hok), z, sentence_accepted hz⟩
 
 /-- the documented grammar's error position is the first character that cannot continue any sentence -/
 theorem grammar_cursor_first_offending (s : Str) (i : Nat) (h : Spec.classify s = .character i) :
